@@ -465,7 +465,7 @@ theorem cellStepNdG_refines (km : KModel α) {h : Heap α} {inputs states output
     (hi : h[inputs.sid]? = some ist) (hs : h[states.sid]? = some sst) (ho : h[outputs.sid]? = some ost)
     (hso : states.sid ≠ outputs.sid) (hiN : i < N) (hiM : i < M) (hT : T ≤ T')
     {rd : RunDims} (hrd : runDims inputs states outputs = .ok rd)
-    (hK : ∀ p ins st r, km.run p ins st = .ok r →
+    (hK : ∀ p ins st r, ins.length = nI → (∀ s ∈ ins, s.length = T) → st.length = nS → km.run p ins st = .ok r →
       r.outputs.length ≤ nO ∧ (∀ ser ∈ r.outputs, ser.length ≤ T) ∧ r.states.length ≤ nS)
     (spec : ParamSpec) (lay : List (Nat × Nat)) (paramsL : List (List α)) (dec : R (List α)) (p : List α)
     (hdec : dec = .ok p) (hcp : cellParams spec lay paramsL i = .ok p) :
@@ -497,7 +497,7 @@ theorem cellStepNdG_refines (km : KModel α) {h : Heap α} {inputs states output
             ((mat ost (ob + i * (nO * T')) nO T').zip (r.outputs ++ List.replicate
               ((mat ost (ob + i * (nO * T')) nO T').length - r.outputs.length) [])).map
               fun (p : List α × List α) => overwrite p.1 p.2)) := by
-    unfold cellStep
+    rw [Props.C04.cellStep_blocks _ _ _ _ _ _ _ _ (by rw [cube_length]; omega)]
     simp only [hcp, hblock, bind, Except.bind]
   have hR : cellStepNdG km.run dec nI h inputs states outputs
       { numCells := N, numStates := nS, numInputSequences := nIn, inputLen := T, cellInputsShape := [(nI : Int), (T : Int)],
@@ -518,7 +518,8 @@ theorem cellStepNdG_refines (km : KModel α) {h : Heap α} {inputs states output
       cases he; rfl
     · simp [bind, Except.bind] at he
   | ok r =>
-    obtain ⟨hko, hkl, hks⟩ := hK _ _ _ _ hk
+    obtain ⟨hps1, hps2, hps3⟩ := passed_shapes (i := i) ri hib hi hsfit
+    obtain ⟨hko, hkl, hks⟩ := hK _ _ _ _ hps1 hps2 hps3 hk
     refine ⟨fun e he => by simp [bind, Except.bind, pure, Except.pure] at he, fun s' o' he => ?_⟩
     simp only [bind, Except.bind, pure, Except.pure, Except.ok.injEq, Prod.mk.injEq] at he
     obtain ⟨hs', ho'⟩ := he
@@ -626,7 +627,7 @@ theorem cellStepNdT_refines (km : KModel α) {h : Heap α} {parameters inputs st
     (hs : h[states.sid]? = some sst) (ho : h[outputs.sid]? = some ost)
     (hso : states.sid ≠ outputs.sid) (hiN : i < N) (hiM : i < M) (hT : T ≤ T')
     {rd : RunDims} (hrd : runDims inputs states outputs = .ok rd)
-    (hK : ∀ p ins st r, km.run p ins st = .ok r →
+    (hK : ∀ p ins st r, ins.length = nI → (∀ s ∈ ins, s.length = T) → st.length = nS → km.run p ins st = .ok r →
       r.outputs.length ≤ nO ∧ (∀ ser ∈ r.outputs, ser.length ≤ T) ∧ r.states.length ≤ nS)
     (spec : ParamSpec) (lay : List (Nat × Nat)) (wf : SpecWF spec)
     (hSc : ∀ (j row sz : Nat), spec[j]? = some none → lay[j]? = some (row, sz) → row < rows)
